@@ -153,7 +153,8 @@ def render(e):
     if k == "Call":
         return "%s(%s)" % (render(e["func"]), render(e["args"]))
     if k == "MethodCall":
-        return "%s.%s(%s)" % (render(e["recv"]), e["method"], render(e["args"]))
+        tf = ("::<%s>" % ", ".join(e["turbofish"])) if e.get("turbofish") else ""
+        return "%s.%s%s(%s)" % (render(e["recv"]), e["method"], tf, render(e["args"]))
     if k == "Macro":
         return "%s!(%s)" % (e["name"], e["raw"])
     if k == "Binary":
